@@ -108,6 +108,22 @@ impl Wake for Flag {
         self.count.fetch_add(1, Ordering::SeqCst);
     }
 }
+/// A Pending poll's waker together with its wake count at that time (a waker shared by several
+/// polls -- one task driving several streams -- counts as woken only if it fired afterwards).
+#[derive(Clone)]
+pub struct PendingMark {
+    pub flag: Arc<Flag>,
+    pub wakes_at: usize,
+}
+impl PendingMark {
+    pub fn new(flag: &Arc<Flag>) -> Self {
+        PendingMark { flag: flag.clone(), wakes_at: flag.wakes() }
+    }
+    pub fn woken(&self) -> bool {
+        self.flag.wakes() > self.wakes_at
+    }
+}
+
 pub fn flag_waker(f: &Arc<Flag>) -> Waker {
     Waker::from(f.clone())
 }
